@@ -469,11 +469,11 @@ func init() {
 	})
 	register(&fw.Check{
 		ID:    "C16",
-		Level: "model_checking",
+		Level: "exploration",
 		Rule: "one sub-space per clause, each enumerated completely within its bounds: (1) New()/NewParser()/WhatWg == default parser on the C01 input spaces; (2) all 72 combinations of remove-user-info x remove-port x remove-fragment x sort{none,keys,parameter} x default-scheme{-,http,foo} against the documented composition " +
 			"(default parser result, standard setters with '', stable sort of the decoded pairs, scheme retry iff the reference model says the input fails for lack of a scheme); (3) neutrality of the six conservative-extension options alone and in all pairs on every input without the (over-approximated) trigger; " +
 			"(4) every replaced encode set (5 options x 3 sets) and two special-scheme maps against the reference model parameterised the same way; (5) collapse postcondition on a slash/dot/drive-letter alphabet; (6) skip-equals on all lists of <=3 pairs over a 5x5 menu. " +
-			"non-trivial = cases in which the option applies / the parse succeeds; states = distinct results, transitions = model steps",
+			"non-trivial = cases in which the option applies / the parse succeeds (largest single space)",
 		Assume:  []string{"reference model (validated against WPT on every run) for the missing-scheme verdict and the parameterised parse", "trigger predicates are over-approximations (inputs with a trigger are not used for the neutrality clause)", "experimental options without a specification (host callbacks, encoding override, skip-trailing-slash, allow-setting-path) are only covered by C02"},
 		Trusted: []string{"verif/model"},
 		Body:    c16Body,
@@ -512,7 +512,10 @@ func c16Body(c *fw.Ctx) {
 		for _, pre := range []string{"", "http://h/", "http://u:p@h:81/p?b=2&a=1#f", "foo://h:9/p?q#f", "file:", "a:"} {
 			enum.Raw(enum.General, 2, func(s []byte) { f("", pre+string(s)) })
 		}
-		productDev(ProductSlots, 2, func(parts []string) { f("", strings.Join(parts, "")); f("http://u:p@b.test:81/d/f?bq#bf", strings.Join(parts, "")) })
+		productDev(ProductSlots, 2, func(parts []string) {
+			f("", strings.Join(parts, ""))
+			f("http://u:p@b.test:81/d/f?bq#bf", strings.Join(parts, ""))
+		})
 		for _, q := range []string{"?b=2&a=1&a=0&c", "?a=%26b&c=%3D", "?a+b=c+d&a%20b=1", "?=&=&&x", "?é=1&e=2&É=3", "?a=2&a=1&b=1&a=3#f", "?%zz=1&%=2"} {
 			for _, pre := range []string{"http://u:p@h:81/p", "foo:o p", "file:///C:/x", "h.test/p", "//h/p"} {
 				f("", pre+q)
